@@ -349,7 +349,7 @@ func (ex *Explorer) runOne(sv *solverProc, xs []*solverProc, it workItem) (r *ru
 
 func newInterpreter(m *Machine, r *runState) *interpreter {
 	i := &interpreter{Machine: m, globals: map[*ssa.Global]*value{}, run: r,
-		syncMaps: map[*value]*hashmap{}, mutexes: map[*value]*vmMutex{}}
+		syncMaps: map[*value]*hashmap{}, mutexes: map[*value]*vmMutex{}, builders: map[*value]*[]byte{}}
 	i.sched = newScheduler(i)
 	return i
 }
